@@ -89,6 +89,8 @@ def obj_float(name):
         return lambda x: np.round(sphere(x) * 8.0) / 8.0 + 1e12
     if name == "inf":
         return lambda x: np.where(sphere(x) >= 9.0, np.inf, np.where(sphere(x) <= 1.5, -np.inf, sphere(x)))
+    if name == "tiny":    # an objective in very small units: every improvement is far below 1e-8
+        return lambda x: sphere(x) * 1e-12
     raise KeyError(name)
 
 
